@@ -331,13 +331,20 @@ func scanT[T any](pre func() T) destFn {
 		}
 		cells = append(cells, c)
 
+		// another struct type with another layout, scanned from the SAME Solutions (whatever is kept per query must not depend
+		// on the layout of the first destination); Pad belongs to no variable and has to stay as it is
 		var sf struct {
-			X T
+			Pad string
+			X   T
 		}
+		sf.Pad = "pad"
 		sf.X = pre()
 		c = proto.ScanCell{Dest: name, Shape: "field"}
 		if err := guardedScan(sols, &sf); err != nil {
 			c.Err = err.Error()
+		} else if sf.Pad != "pad" {
+			c.Err = ""
+			c.Val = &proto.GoVal{K: "other:a field that belongs to no variable was overwritten with " + strconv.Quote(sf.Pad)}
 		} else {
 			c.Val = dump(reflect.ValueOf(&sf.X).Elem())
 		}
